@@ -8,7 +8,8 @@ RULE = ("generated batch parameter definitions: 1-4 parameters, 1-4 distinct val
         "parameters; regularize_parameters -> parameters_configuration -> build_option_for_parameters; oracle: "
         "independent cartesian product (same multiset of combinations, each exactly once), same list on repeated calls "
         "and across 3 PYTHONHASHSEED values, and the option string tokenised back yields each chosen (name, value) / "
-        "(name, sub:value) exactly once; non-trivial = >= 2 parameters with >= 2 values or a nested group; distinct by "
+        "(name, sub:value) exactly once; build_final_command on every combination of definitions with a {variable} template "
+        "in a nested value (each command shows its own combination's values, the expansion is left unchanged); non-trivial = >= 2 parameters with >= 2 values or a nested group; distinct by "
         "hash(definition)")
 
 HASHSEEDS = [0, 5, 77]
@@ -126,6 +127,31 @@ def check(defn):
         if not ok or sorted(pairs) != sorted(wantp):
             P.append(("options:wrong-rendering", "combination %r rendered as %r (expected each of %r exactly once)" % (c, s, wantp)))
             break
+    # the complete command lines, built one after the other from the same expansion as run_batch does, with a
+    # {variable} template in one nested value referring to a top-level option: each command must show the values of
+    # its own combination, and building a command must not alter the expansion
+    import copy
+
+    plain = [k for k, v in defn.items() if not isinstance(v, dict)]
+    nested = [k for k, v in defn.items() if isinstance(v, dict)]
+    if plain and nested and len(combos) >= 2:
+        ref = sorted(plain)[0]
+        tdef = copy.deepcopy(defn)
+        sub = sorted(tdef[nested[0]])[0]
+        tdef[nested[0]][sub] = "t_{%s}" % ref
+        try:
+            tcombos = batch.parameters_configuration(batch.regularize_parameters(tdef))
+            before = copy.deepcopy(tcombos)
+            for c in tcombos[:30]:
+                cmd, _ = batch.build_final_command("solve", {"set": "s1"}, {}, c, files=["f.yaml"])
+                expect = "%s:t_%s" % (sub, c[ref])
+                if expect not in cmd.split():
+                    P.append(("command:template-resolved-with-another-combination", "combination %r gives command %r, expected the option value %r" % (c, cmd, expect)))
+                    break
+            if tcombos != before and not P:
+                P.append(("command:building-a-command-alters-the-expansion", "the expansion of %r was modified while building the commands" % (tdef,)))
+        except Exception as e:
+            P.append(("command:exception:%s" % type(e).__name__, "build_final_command on %r raised %s: %s" % (tdef, type(e).__name__, e)))
     return P, common.stable_hash(got)
 
 
